@@ -12,6 +12,7 @@ type Plan struct {
 	Level         string
 	Race          bool
 	Scenarios     []ScenPlan
+	Micro         []ScenPlan // second phase of a race-tier check: scenarios run under the controlled scheduler (no -race build)
 	QuickWallS    float64 // per-worker wall-clock cap (safety net; run counts are the budget)
 	ThoroughWallS float64
 	Rule          string
@@ -170,8 +171,9 @@ var plans = map[string]*Plan{
 		Level:     "exploration",
 		Race:      true,
 		Scenarios: []ScenPlan{{"sysrace", 1600, 24000}},
+		Micro:     []ScenPlan{{"lbmix", 16000, 400000}},
 		QuickWallS: 200, ThoroughWallS: 1700,
-		Rule:        "Scenario sysrace (binary built with -race, network in free-delivery mode, GOMAXPROCS=4 per worker): 8-24 (thorough 8-64) goroutines running a drawn mix of client traffic with 5xx/reset/short-body faults, admin add/remove/strategy/list, /metrics, /health, /v1/backends readers, passive+active health transitions, breaker, limiter, plugins, then shutdownGracefully; every strategy and feature combination is drawn. The workload is seed-determined; the schedule is the Go scheduler's. Violations: race-detector reports with Helios frames (fingerprint = the two sites), panics, goroutines stuck on Helios locks. Deadlock / atomicity detection under a controlled schedule is contributed by the micro-sim checks (C03/C07/C08/C19).",
+		Rule:        "Scenario sysrace (binary built with -race, network in free-delivery mode, GOMAXPROCS=4 per worker): 8-24 (thorough 8-64) goroutines running a drawn mix of client traffic with 5xx/reset/short-body faults, admin add/remove/strategy/list, /metrics, /health, /v1/backends readers, passive+active health transitions, breaker, limiter, plugins, then shutdownGracefully; every strategy and feature combination is drawn. The workload is seed-determined; the schedule is the Go scheduler's. Violations: race-detector reports with Helios frames (fingerprint = the two sites), panics, goroutines stuck on Helios locks. Second phase, scenario lbmix (ordinary build, seeded cooperative scheduler): bursts of 3-10 (thorough up to 24) tasks drawn from client traffic with backend faults, admin list/add/remove/strategy, metrics/health readers, explicit ejections, Stop, with probes and elapsed unhealthy windows between bursts, preempted at every Helios lock, atomic and go statement; the RWMutex model gives waiting writers preference over new readers as sync.RWMutex does; violations: wait-for cycles / tasks blocked for good, spinning without progress, panics out of Helios code, WaitGroup misuse -- each with a replayable schedule.",
 		Real:        sysReal, Stub: append(append([]string{}, sysStub...), "goroutine scheduling: NOT simulated in this check (Go runtime under the race detector)"), Assumptions: append(append([]string{}, commonAssumptions...), "race detector (happens-before) decides; reproduction of a report from its seed is attempted up to 6 times because the schedule is not seed-decided"),
 		ExpectProbes: []string{"race-run-completed"},
 	},
